@@ -20,16 +20,25 @@ import numpy as np
 from .. import fixtures, pool, tlc, tracecheck
 from ..common import seed
 
-DMS = [10.0, 12.0, 20.0, 5.0]           # index 1 = folding DM
-# the last two differ from the folding period by a few 1e-6 only: over a long observation that is still many bins
-# period targets as P_fold + k * 1e-9 s; the last two differ from the folding period by 5e-7 / 1e-6 relative only
-PK = [0, 1000, -2000, 5, -10]
-PERIODS = [0.01 + k * 1e-9 for k in PK]
-TOBS = 1.0e4
+# Two families of targets.  A: period targets within 1e-6 of the folding period over a LONG observation (tobs = 1e4 s) - many bins
+# of drift from tiny period changes, including one target whose whole drift is below one bin.  B: period targets 10 % away from
+# the folding period over a short observation - the DM rotation (defined in bins of the FOLDING period) must not depend on
+# which period is installed.  dbins = (P_new/P_fold - 1) * tobs * nbins / P_fold is supplied to TLC exactly as dbn/dbd.
+FAMILIES = {
+    "A": {"dms": [10.0, 12.0, 20.0, 5.0],                       # index 0 = folding DM
+          "pk": [0, 10000, -20000, 50, -100, 3],               # P = 0.01 s + k * 1e-10 s  ->  dbins = k * nbins / 100
+          "periods": [0.01 + k * 1e-10 for k in [0, 10000, -20000, 50, -100, 3]],
+          "dbn_per_bin": [0, 10000, -20000, 50, -100, 3], "dbd": 100, "tsamp": 1.0e4 / 4, "nsamp": 4},
+    "B": {"dms": [10.0, 48.0, 30.0, 2.0],
+          "pk": [0, 6, -5, 1, -1, 2],                            # P = 0.5 s + k * 0.01 s, tobs = 8 s  ->  dbins = k * 32 * nbins / 100
+          "periods": [0.5 + k * 0.01 for k in [0, 6, -5, 1, -1, 2]],
+          "dbn_per_bin": [0, 192, -160, 32, -32, 64], "dbd": 100, "tsamp": 2.0, "nsamp": 4},
+}
 
 
-def make_cube(hdr, shape):
+def make_cube(hdr, shape, fam):
     from sigpyproc.foldedcube import FoldedData
+    DMS, PERIODS = fam["dms"], fam["periods"]
     nints, nbands, nbins = shape
     data = np.zeros(shape, dtype=np.float32)
     for i in range(nints):
@@ -59,8 +68,10 @@ def rotations(cube, orig):
 def job(spec):
     from sigpyproc.readers import FilReader
     d = pool.worker_scratch()
+    fam = FAMILIES[spec["family"]]
+    DMS, PERIODS = fam["dms"], fam["periods"]
     p = d / f"c17_{spec['id']}.fil"
-    fixtures.write_fil(p, np.zeros(64 * 4, dtype=np.int64), 64, 8, fch1=400.0, foff=-1.0, tsamp=TOBS / 4)   # tobs = 1e4 s
+    fixtures.write_fil(p, np.zeros(64 * fam["nsamp"], dtype=np.int64), 64, 8, fch1=400.0, foff=-1.0, tsamp=fam["tsamp"])
     hdr = FilReader(str(p)).header
     traces = []
     for shape in spec["shapes"]:
@@ -68,19 +79,19 @@ def job(spec):
         # shift tables from fresh cubes updated once
         sdm, sp = [], []
         for dmv in DMS:
-            c, o = make_cube(hdr, shape)
+            c, o = make_cube(hdr, shape, fam)
             if dmv != DMS[0]:
                 c.update_dm(dmv)
             sdm.append(rotations(c, o)[0])                # rotation of profile (0, j)
         for pv in PERIODS:
-            c, o = make_cube(hdr, shape)
+            c, o = make_cube(hdr, shape, fam)
             if pv != PERIODS[0]:
                 c.update_period(pv)
             sp.append([rotations(c, o)[i][0] for i in range(nints)])
-        # dbins = (k*1e-9 / P) * tobs * nbins / P = k * nbins / 10   for P = 0.01 s, tobs = 1e4 s  (exact)
-        h = {"nints": nints, "nbands": nbands, "nbins": nbins, "sdm": sdm, "sp": sp, "dbn": [k * nbins for k in PK], "dbd": 10}
+        h = {"nints": nints, "nbands": nbands, "nbins": nbins, "sdm": sdm, "sp": sp, "dbn": [k * nbins for k in fam["dbn_per_bin"]],
+             "dbd": fam["dbd"]}
         for hist in spec["hists"]:
-            cube, orig = make_cube(hdr, shape)
+            cube, orig = make_cube(hdr, shape, fam)
             ev = []
             for (op, t) in hist:
                 e = {"op": op, "target": t + 1}
@@ -96,7 +107,7 @@ def job(spec):
                 e["rep_dm"] = DMS.index(cube.dm) + 1 if cube.dm in DMS else 0
                 e["rep_period"] = PERIODS.index(cube.period) + 1 if cube.period in PERIODS else 0
                 ev.append(e)
-            traces.append({"hdr": h, "ev": ev, "cfg": {"shape": list(shape), "history": [[o, t + 1] for o, t in hist]}})
+            traces.append({"hdr": h, "ev": ev, "cfg": {"family": spec["family"], "shape": list(shape), "history": [[o, t + 1] for o, t in hist]}})
     return traces
 
 
@@ -106,17 +117,17 @@ def run(v) -> None:
     v.rule = "histories distinct by (cube shape, sequence of (op, target)); non-trivial = length >= 2"
     v.assumptions += ["shift tables are measured once per shape on fresh cubes (the property's oracle)",
                       "profiles are distinct non-symmetric ramps: the applied rotation is read exactly from the data",
-                      "targets: 4 DMs (10 folding, 12, 20, 5) x 5 periods P+k*1e-9 s (k = 0, 1000, -2000, 5, -10); tobs = 1e4 s; band 400 MHz, 64 x -1 MHz", "the period drift is computed by TLC from the documented relation; the DM shift table is measured on fresh cubes (the law is C09)"]
+                      "targets: family A 4 DMs x 6 periods 0.01 s + k*1e-10 s over 1e4 s (one target drifts by less than a bin in all); family B 4 DMs x 6 periods 0.5 s + k*0.01 s over 8 s; band 400 MHz, 64 x -1 MHz", "the period drift is computed by TLC from the documented relation; the DM shift table is measured on fresh cubes (the law is C09)"]
     v.add_tlc(tlc.must_pass(tlc.run("FoldedCube", "MC_FoldedCube_intended.cfg", workers=4), "FoldedCube intended"), "MC_FoldedCube")
     tlc.must_fail(tlc.run("FoldedCube", "MC_FoldedCube_pinned.cfg", workers=4), "pinned registers")
-    ops = [("dm", t) for t in range(3)] + [("period", t) for t in (0, 1, 3)]
+    ops = [("dm", t) for t in range(3)] + [("period", t) for t in (0, 1, 5)]
     depth = 3 if quick else 4
     hists = [list(h) for k in range(1, depth + 1) for h in itertools.product(ops, repeat=k)]
-    ops4 = [("dm", t) for t in range(4)] + [("period", t) for t in range(5)]
+    ops4 = [("dm", t) for t in range(4)] + [("period", t) for t in range(6)]
     for _ in range(60 if quick else 4000):
         hists.append([rng.choice(ops4) for _ in range(rng.randrange(4, 13))])
     shapes = [(3, 4, 16), (2, 2, 8), (3, 1, 8)] if quick else [(3, 4, 16), (2, 2, 8), (4, 8, 32), (1, 4, 16), (5, 1, 16)]
-    specs = [{"id": i, "shapes": shapes, "hists": hists[i::14]} for i in range(14)]
+    specs = [{"id": i, "family": "AB"[i % 2], "shapes": shapes, "hists": hists[i // 2::14]} for i in range(28)]
     traces = [t for r in pool.pmap(job, specs, workers=14) for t in r]
     for t in traces:
         v.evaluations += 1
